@@ -99,7 +99,7 @@ def cases(spec, ctx):
         # very wide and very deep conditions: and_/or_ with 8-30 operands, 6-14 nested negations, right-deep chains of 8-16
         # alternating connectives
         o = dict(C.DEFAULT_OPTS)
-        if spec["sub"] % 4 == 0:
+        if spec["sub"] % 4 == 0 or spec["n"] > 100:      # (quick: one per four shards; thorough: one per shard)
             # one very long domain (more than a thousand qualifying objects pass one operator), evaluated twice
             rng = ctx.rng("h", spec["sub"])
             n = rng.randint(1300, 1450)      # about 7 in 8 satisfy the second operand: well over a thousand go through its cache
